@@ -125,4 +125,28 @@ MUTANTS = [
             (R + "thread_runner.py", "        if not self._payload_failure.done():\n            self._payload_failure.set_result(None)\n", "        if not self._payload_failure.done():\n            self._payload_failure.set_result(None)\n        for thread in getattr(self, \"_threads\", []):\n            await self.asyncio_loop.run_in_executor(None, thread.join)\n"),
         ],
     },
+    {
+        "name": "c13_config_reference_dropped",
+        "properties": ["C13"],
+        "description": "the loaded configuration is no longer kept referenced while the daemon runs",
+        "edits": [("cobald/daemon/core/main.py", "    with load(path):\n        # sleep indefinitely to wait until the runtime is aborted\n        await asyncio.sleep(float(\"inf\"))", "    with load(path):\n        pass\n    await asyncio.sleep(float(\"inf\"))")],
+    },
+    {
+        "name": "c13_load_before_the_loop",
+        "properties": ["C13"],
+        "description": "the configuration is loaded synchronously before the runtime (and its event loop) starts",
+        "edits": [("cobald/daemon/core/main.py", "    runtime.adopt(_load_services, configuration, flavour=asyncio)\n    runtime.accept()", "    with load(configuration):\n        runtime.accept()")],
+    },
+    {
+        "name": "c13_load_errors_swallowed",
+        "properties": ["C13"],
+        "description": "errors while loading the configuration are logged and swallowed: the daemon stays up idle",
+        "edits": [("cobald/daemon/core/main.py", "    with load(path):\n        # sleep indefinitely to wait until the runtime is aborted\n        await asyncio.sleep(float(\"inf\"))", "    try:\n        with load(path):\n            await asyncio.sleep(float(\"inf\"))\n    except Exception:\n        logging.getLogger(\"cobald.runtime\").exception(\"configuration failed\")\n        await asyncio.sleep(float(\"inf\"))")],
+    },
+    {
+        "name": "c13_exit_zero_on_failure",
+        "properties": ["C13"],
+        "description": "a failed runtime is reported on the log but the process exits with status 0",
+        "edits": [("cobald/daemon/core/main.py", "    runtime.accept()\n", "    try:\n        runtime.accept()\n    except RuntimeError:\n        logger.error(\"daemon failed\")\n")],
+    },
 ]
